@@ -917,7 +917,7 @@ ASSUMPTIONS = (
     'the shim itself (vf/symnp.py) is trusted after its per-run validation against '
     'real jax on random concrete inputs',
     'shapes / configurations beyond the instantiated grid, ConvTranspose, '
-    'ConvLocal, GroupNorm, InstanceNorm, LoRA, fp8 are NOT covered',
+    'ConvLocal, LoRA, fp8 are NOT covered',
     'jax.core.get_opaque_trace_state compat shim installed by the harness process',
 )
 
